@@ -166,6 +166,8 @@ func (s *DeadCodeServiceImpl) analyzeFile(ctx context.Context, filePath string, 
 		// Apply severity filtering
 		filteredFindings := s.filterFindingsBySeverity(functionResult.Findings, req.MinSeverity)
 		functionResult.Findings = filteredFindings
+		// The severity counts describe the findings that are reported
+		functionResult.CalculateSeverityCounts()
 
 		// Only include functions that have findings after filtering
 		if len(functionResult.Findings) > 0 {
